@@ -3,8 +3,8 @@
 set -e
 cd "$(dirname "$0")"
 root=$(pwd)
+/venv/bin/python -c "import sys; sys.path.insert(0, 'harness'); import common; common.regen_coqproject()"
 cd coq
-coq_makefile -f _CoqProject -o Makefile > /dev/null
 timeout 3000 make -j16 > "$root/build-coq.log" 2>&1 || { tail -40 "$root/build-coq.log"; exit 1; }
 cd "$root"
 mkdir -p build evidence replays
